@@ -33,6 +33,7 @@ type Config struct {
 	CrossCheck    bool
 	SpecBudget    int
 	ItemCap       int
+	Live          string
 }
 
 type Engine struct {
@@ -56,6 +57,7 @@ type Engine struct {
 	native    map[string]nativeImpl
 	redirects map[string]string
 	ackApps   map[string][]ackApp
+	mergeStat map[*ssa.If]*mergeStat
 	axioms    []*Term
 }
 
@@ -220,7 +222,7 @@ func (e *Engine) feas(st *State, c *Term) (t, f bool, mT, mF Model) {
 		}
 	}
 	if !tKnown {
-		r, m := e.solver.Check(st.PC, c, e.cfg.FeasTimeoutMs, true)
+		r, m := e.solver.CheckBase(st.PC, c, e.cfg.FeasTimeoutMs, true, st.Model)
 		switch r {
 		case Sat:
 			t, mT = true, m
@@ -232,7 +234,7 @@ func (e *Engine) feas(st *State, c *Term) (t, f bool, mT, mF Model) {
 		}
 	}
 	if !fKnown {
-		r, m := e.solver.Check(st.PC, Not(c), e.cfg.FeasTimeoutMs, true)
+		r, m := e.solver.CheckBase(st.PC, Not(c), e.cfg.FeasTimeoutMs, true, st.Model)
 		switch r {
 		case Sat:
 			f, mF = true, m
